@@ -314,6 +314,9 @@ pub struct ProbeScenario {
     /// boolregs/conv: arena base and function offset of the synthetic target
     pub arena: u64,
     pub off: u64,
+    /// index into arena::PROLOGUES: the synthetic target's first instruction
+    #[serde(default)]
+    pub prologue: usize,
     /// seeded register files
     pub regs: Vec<Vec<u64>>,
     pub rets: Vec<Vec<u64>>,
@@ -345,9 +348,11 @@ pub fn generate(profile: &str, seed: u64, index: u64) -> ProbeScenario {
     let near = rng.chance(1, 2);
     let arena = if near { 0x5555_4000_0000 + rng.below(0x1000) * 0x1000 } else { *rng.pick(&[0x1000_0000_0000u64, 0x10000, 0x7000_0000_0000, 0x2_0000_0000]) + rng.below(0x100) * 0x1000 };
     let off = *rng.pick(&[0u64, 1, 0x7f3, 0xff0, 0xffc, 0xffe]);
+    let prologue = rng.below(crate::arena::PROLOGUES.len() as u64) as usize;
     if mode != "gate" && mode != "shapes" {
         classes.push(if near { "target-near-image".into() } else { "target-far-from-image".into() });
         classes.push(format!("off{off:x}"));
+        classes.push(format!("prologue{prologue}"));
     }
     if mode == "gate" {
         classes.push(format!("sig{sig}-{value}"));
@@ -379,6 +384,7 @@ pub fn generate(profile: &str, seed: u64, index: u64) -> ProbeScenario {
         value,
         arena,
         off,
+        prologue,
         regs,
         rets,
         classes,
@@ -470,7 +476,7 @@ pub fn execute(sc: &ProbeScenario, sh: &Shared) -> Value {
                 return json!({"skipped": "arena unavailable"});
             }
             let target = base + sc.off;
-            arena::write_const_fn(target, 0xAB5A);
+            arena::write_fn_with_prologue(target, 0xAB5A, sc.prologue);
             arena::seal_rx(base, 2 * 4096);
             let mut inj = InjectorPP::new();
             let mark = interpose::ledger_len();
